@@ -105,10 +105,22 @@ P04_FlagTakesEffect(w, ev, w2, h, r) ==
           LET p == w2.paused[ShStr(ev.sh)] IN Arg(ev,1).h \in DOMAIN p /\ (FlagSet(p[Arg(ev,1).h]) = (ev.fn = "ESDTPause"))
     /\ (ev.fn = "ESDTFreeze" /\ ev.rcpt \in Accts(w2)) => (Arg(ev,1).h \in DOMAIN w2.acct[ev.rcpt].esdt /\ FlagSet(w2.acct[ev.rcpt].esdt[Arg(ev,1).h].props))
     /\ (ev.fn = "ESDTUnFreeze" /\ ev.rcpt \in Accts(w2)) => (Arg(ev,1).h \in DOMAIN w2.acct[ev.rcpt].esdt => ~FlagSet(w2.acct[ev.rcpt].esdt[Arg(ev,1).h].props))
-P04_Restores(w, ev, w2, h, r) ==
-  \* after the flag is cleared an operation behaves as the model without the flag says
-  (Call(ev) /\ Pred(r) /\ r.ok /\ NArgs(ev) >= 1 /\ (\E i \in 1..NArgs(ev) : Arg(ev, i).h \in h.flagged)
-     /\ ev.fn \in (SupplyFns \cup TokenFns \cup {"ESDTNFTAddURI", "ESDTNFTUpdateAttributes"})) => (IsOk(ev) /\ Bal(w2) = Bal(r.w))
+\* "Unfreezing or unpausing restores exactly the earlier behaviour": a call naming a token that WAS flagged and no longer is (no pause of it on
+\* the executing shard, no frozen entry of it on that shard) is not refused as if the flag were still there: the reference accepts it, and the
+\* reference with the flags put back (pause on the executing shard) refuses it - so a refusal by the code is the flag's doing.  What an
+\* accepted call does to balances is C01/C02's question; what a call does while a flag IS in force is P04_Immobile's.
+FlagNow(w, s, t) ==
+  \/ IsPausedKey(w, s, t)
+  \/ \E a \in Accts(w) : Known(a) /\ ShardOfA(a) = s /\ t \in DOMAIN w.acct[a].esdt /\ FlagSet(w.acct[a].esdt[t].props)
+WasFlagged(ev, h) == {Arg(ev, i).h : i \in {j \in 1..NArgs(ev) : Arg(ev, j).h \in h.flagged}}
+RECURSIVE Repause(_, _, _)
+Repause(w, s, Ts) == IF Ts = {} THEN w ELSE LET t == CHOOSE x \in Ts : TRUE IN
+                     Repause([w EXCEPT !.paused[ShStr(s)] = Put(@, t, "0100")], s, Ts \ {t})
+P04_Restores(w, ev, w2, h, r, r2) ==
+  (Call(ev) /\ ~IsOk(ev) /\ ~ev.rae /\ ev.caller # ESDTSC /\ Pred(r) /\ r.ok /\ NArgs(ev) >= 1 /\ WasFlagged(ev, h) # {}
+     /\ (\A t \in WasFlagged(ev, h) : ~FlagNow(w, ev.sh, t))
+     /\ ev.fn \in (SupplyFns \cup TokenFns \cup {"ESDTNFTAddURI", "ESDTNFTUpdateAttributes"})) =>
+       ~(Pred(r2) /\ ~r2.ok)      \* r2: the reference on Repause(w, ev.sh, WasFlagged(ev, h))
 
 \* C05
 P05_Protected(w, ev, w2, h, r) ==
@@ -163,11 +175,12 @@ P05_Frame(w, ev, w2, h, r) ==
 Fwd(ev) == ev.fwd
 P06_NoGasCreated(w, ev, w2, h, r) ==
   (Call(ev) /\ IsOk(ev)) => (ev.gr < HugeGas /\ ev.fwd < HugeGas /\ ev.gr + ev.fwd <= ev.gas) \/ (ev.gascls # "" /\ "consumed" \in DOMAIN ev.x /\ ev.x.consumed >= 0)
+\* "what the function charges" is MEASURED on the real code: the harness runs the same call on the same pre-state with ample gas first
+\* (undone afterwards) and logs the consumption as x.used; a real step given less than that fails or keeps nothing.  (Whether the measured
+\* charge is the right price is C16's question, not this one: a stale or wrong price creates no gas.)
+Underfunded(ev) == ev.a = "exec" /\ "used" \in DOMAIN ev.x /\ ev.x.used < HugeGas /\ ev.gas < ev.x.used
 P06_Underfunded(w, ev, w2, h, r) ==
-  \* the model rejects the call for lack of gas (it accepts it with ample gas): then it fails or keeps nothing
-  (Call(ev) /\ IsOk(ev) /\ Pred(r) /\ ~r.ok /\ ev.gas < HugeGas) =>
-     LET r2 == IF ev.a = "exec" THEN Exec(w, [ev EXCEPT !.gas = 900000000]) ELSE r IN
-     (ev.a = "exec" /\ Pred(r2) /\ r2.ok) => ev.gr + ev.fwd = 0
+  (Call(ev) /\ IsOk(ev) /\ Underfunded(ev)) => ev.gr + ev.fwd = 0
 
 \* C07
 P07_ReturnedNonce(w, ev, w2, h, r) ==
